@@ -152,7 +152,9 @@ func c14Sys(idx int, c *runner.Case) jx.Obj {
 				pi[m] = op
 			}
 		}
-		doc["paths"] = jx.Obj{"/p/{id}": pi, "/other": jx.Obj{"get": opWith(jx.Obj{"operationId": "otherGet"})}}
+		// ids that differ by letter case only are different ids
+		doc["paths"] = jx.Obj{"/p/{id}": pi, "/other": jx.Obj{"get": opWith(jx.Obj{"operationId": "otherGet"}), "options": opWith(jx.Obj{"operationId": "OtherGet"})},
+			"/catalog": jx.Obj{"head": opWith(jx.Obj{"operationId": "ID_GET"})}}
 	case idx < 128+18:
 		k := idx - 128
 		field := "consumes"
@@ -165,6 +167,9 @@ func c14Sys(idx int, c *runner.Case) jx.Obj {
 		}
 		op := opWith(jx.Obj{"operationId": "a"})
 		if v := three(k%3, "application/xml", "application/json"); v != nil {
+			if a, isList := v.(jx.Arr); isList && len(a) > 0 && k/3 == 2 {
+				v = append(a, a[0], a[1], a[0]) // the same media types listed several times
+			}
 			op[field] = v
 		}
 		doc["paths"] = jx.Obj{"/p": jx.Obj{"post": op, "get": opWith(nil)}}
